@@ -23,6 +23,21 @@ Section RealDir.
   Variable canon : bytes -> option bytes.
   Variable cwd : bytes.
 
+  (* what Path::components() yields after the root of an absolute path:
+     empty components and "." are dropped, ".." is kept *)
+  Definition comps_of (p : bytes) : list comp :=
+    filter (fun c => negb (is_empty c || is_dot c)) (split slash p).
+  Definition prefix_str (cs : list comp) : bytes := slash :: join slash cs.
+
+  (* realpath(3) without -e (fix F28): the longest prefix that exists is
+     resolved -- prefixes of j, j-1, ..., 0 components are tried -- and the rest
+     is appended and cleaned lexically *)
+  Fixpoint resolve_prefix (cs : list comp) (j : nat) : option bytes :=
+    match canon (prefix_str (firstn j cs)) with
+    | Some p => Some (normpath (fold_left path_push (skipn j cs) p))
+    | None => match j with O => None | S j' => resolve_prefix cs j' end
+    end.
+
   (* realdirpath for the inputs relpath gives it (absolute paths). *)
   Definition realdirpath (t : bytes) : bytes :=
     match split_last_slash t with
@@ -30,7 +45,13 @@ Section RealDir.
     | Some (dname, fname) =>
         let d := match canon dname with
                  | Some p => p
-                 | None => normpath (abs_path cwd dname)
+                 | None =>
+                     let a := abs_path cwd dname in
+                     let cs := comps_of a in
+                     match resolve_prefix cs (length cs - 1) with
+                     | Some p => p
+                     | None => normpath a
+                     end
                  end in
         path_push d fname
     end.
